@@ -83,3 +83,19 @@ Definition c18_nontrivial (c : trncase) : bool :=
      && existsb (fun row => existsb (fun cell => negb (str_eqb cell STAR)) row) left_rows) (tn_views c).
 
 Definition c18_report := report (fun _ => true) c18_oracle c18_known c18_nontrivial.
+
+(** ** C17, observed end to end: with templates that expose the columns one by one (L_p:%L[p] /
+    R_p:%R[p]) the rows of bigram.left / bigram.right show the left- and right-rewritten features
+    exactly as [Trainer::extract_feature_set] used them (first matching rule of the section, the
+    ORIGINAL features when no rule matches, the three sections independent of one another) *)
+Definition c17t_oracle (c : trncase) : bool :=
+  match parse_rewrite_def (tn_rewrite_def c) with
+  | Ok rs =>
+      forallb (fun v : wview => let '(words, left_rows, right_rows) := v in
+        forallb (fun w => let '(f, la, ra, _) := w in let ta := tuples c rs f in
+          (1 <=? la) && (1 <=? ra)
+          && listed_ok (nth (N.to_nat la - 1) left_rows []) (snd ta)
+          && listed_ok (nth (N.to_nat ra - 1) right_rows []) (fst ta)) words) (tn_views c)
+  | _ => false
+  end.
+Definition c17t_report := report (fun _ => true) c17t_oracle (fun _ => false) c18_nontrivial.
